@@ -13,7 +13,12 @@
  *   H <name>                                    | <Utility::SDBM(name)>
  *   B <node> <start>                            (re)start of the process on <node> at time <start>
  *         (0 = Application start time not yet set): fresh objects, no connections.
- *   K <node> <peer> <0|1>                       node's connection to endpoint #peer (0 = A, 1 = B, 2.. extras) goes down/up
+ *   K <node> <peer> <0|1> [<conn#>]             connection number conn# (default 0) of <node> to endpoint #peer (0 = A, 1 = B, 2.. extras) is
+ *         removed / attached: Endpoint::RemoveClient / AddClient with a JsonRpcConnection of its own per (peer, conn#).  An endpoint can
+ *         hold several connections at a time (both members dial each other); it is connected while at least one is left.
+ *   S <node> <start>                            the process on <node> dies without a clean shutdown and is started again at <start> THROUGH
+ *         THE STATE FILE: ConfigObject::DumpObjects(file, FAState) on the running objects (the periodic dump), new objects as for B,
+ *         ConfigObject::RestoreObjects(file, FAState) into them before they are activated (lib/cli/daemoncommand.cpp:289)
  *   U <node> <now>                              ApiListener::UpdateObjectAuthority() on <node> at time <now>
  *   X <node> <obj#> <now>                       two OVERLAPPING UpdateObjectAuthority() runs on <node>: the harness thread holds
  *         ObjectLock(object #obj) while two threads run UpdateObjectAuthority(); when both are blocked in that object's
@@ -212,7 +217,20 @@ static void GenCase(Rng& rng, std::vector<std::string>& out, bool thorough, long
 		if (start[k] > now) now = start[k];
 	}
 	int nEv = 4 + (int)rng.below(thorough ? 60 : 30);
-	bool up[2] = { false, false };
+	/* the connections each node holds to the other member, by number: an endpoint is connected while at least one is left */
+	std::set<int> conns[2];
+	auto isUp = [&](int k) { return !conns[k].empty(); };
+	auto link = [&](int k, int peer, bool v, int c) {
+		if (c) snprintf(buf, sizeof buf, "K %c %d %d %d", "AB"[k], peer, v ? 1 : 0, c);
+		else snprintf(buf, sizeof buf, "K %c %d %d", "AB"[k], peer, v ? 1 : 0);
+		out.push_back(buf);
+		if (peer == 1 - k) { if (v) conns[k].insert(c); else conns[k].erase(c); }
+	};
+	/* node k's view of the other member flips: up = one connection (sometimes two) attached, down = all of them removed */
+	auto setView = [&](int k, bool v) {
+		if (v) { link(k, 1 - k, true, (int)rng.below(3)); if (rng.below(4) == 0) link(k, 1 - k, true, (int)rng.below(3)); }
+		else { std::set<int> cs = conns[k]; for (int c : cs) link(k, 1 - k, false, c); if (cs.empty()) link(k, 1 - k, false, 0); }
+	};
 	int nAll = nDerived + nObj;
 	bool racy = rng.below(3) == 0;    /* a share of the cases runs its authority updates as overlapping pairs */
 	auto update = [&](int k) {
@@ -240,11 +258,10 @@ static void GenCase(Rng& rng, std::vector<std::string>& out, bool thorough, long
 		snprintf(buf, sizeof buf, "F %c %d %ld", "AB"[k], obj, now); out.push_back(buf);
 		int what = (int)rng.below(4);
 		if (layout == 'P' && what <= 1) {
-			bool v = !(up[0] && up[1]);
-			for (int j = 0; j < 2; j++) { snprintf(buf, sizeof buf, "K %c %d %d", "AB"[j], 1 - j, v ? 1 : 0); out.push_back(buf); up[j] = v; }
+			bool v = !(isUp(0) && isUp(1));
+			for (int j = 0; j < 2; j++) setView(j, v);
 		} else if (layout == 'P' && what == 2) {
-			up[k] = !up[k];
-			snprintf(buf, sizeof buf, "K %c %d %d", "AB"[k], 1 - k, up[k] ? 1 : 0); out.push_back(buf);
+			setView(k, !isUp(k));
 		}
 		now += (long)rng.below(3) * 16;
 		update(k);
@@ -268,22 +285,34 @@ static void GenCase(Rng& rng, std::vector<std::string>& out, bool thorough, long
 			else if (r < 70) work(node, (int)rng.below(6));
 			else if (r < 75) inflight(node);
 			else if (r < 78 && nEp) scramble(node, (int)rng.below(nEp));
-			else if (r < 88 && layout == 'S') { snprintf(buf, sizeof buf, "K %c %d %d", "AB"[node], 1 - node, (int)rng.below(2)); out.push_back(buf); }
-			else if (r < 93) { snprintf(buf, sizeof buf, "B %c %ld", "AB"[node], now); out.push_back(buf); }
+			else if (r < 88 && layout == 'S') link(node, 1 - node, rng.below(2) != 0, (int)rng.below(3));
+			else if (r < 93) { snprintf(buf, sizeof buf, "%c %c %ld", rng.coin() ? 'S' : 'B', "AB"[node], now); out.push_back(buf); conns[node].clear(); }
 			continue;
 		}
 		if (r < 18) {
 			/* symmetric link change: both views flip, then usually both update, then often both get the same work */
-			bool v = !(up[0] && up[1]);
-			for (int k = 0; k < 2; k++) { snprintf(buf, sizeof buf, "K %c %d %d", "AB"[k], 1 - k, v ? 1 : 0); out.push_back(buf); up[k] = v; }
+			bool v = !(isUp(0) && isUp(1));
+			for (int k = 0; k < 2; k++) setView(k, v);
 			for (int k = 0; k < 2; k++) if (rng.below(3) == 0) scramble(k, 1 - k);
 			if (rng.below(4)) for (int k = 0; k < 2; k++) update(k);
 			if (rng.below(2)) { int w = (int)rng.below(6); if (w == 3) w = 0; long save = (long)rng.s; for (int k = 0; k < 2; k++) { rng.s = (uint64_t)save; work(k, w); } }
-		} else if (r < 26) {
-			up[node] = !up[node];
-			snprintf(buf, sizeof buf, "K %c %d %d", "AB"[node], 1 - node, up[node] ? 1 : 0); out.push_back(buf);
-		} else if (r < 32 && nExtra) {
-			snprintf(buf, sizeof buf, "K %c %d %d", "AB"[node], 2 + (int)rng.below(nExtra), (int)rng.below(2)); out.push_back(buf);
+		} else if (r < 23) {
+			setView(node, !isUp(node));
+		} else if (r < 29) {
+			/* both members dialled each other: every side holds two connections to the other one for a while, then the redundant
+			 * one is closed (any of the two, independently on each side) -- the endpoints still see each other */
+			for (int k = 0; k < 2; k++) { link(k, 1 - k, true, 0); link(k, 1 - k, true, 1); }
+			if (rng.below(3)) for (int k = 0; k < 2; k++) update(k);
+			now += (long)rng.below(3) * 17;
+			if (rng.below(4)) for (int k = 0; k < 2; k++) link(k, 1 - k, false, (int)rng.below(2));
+			else link(node, 1 - node, false, (int)rng.below(2));
+			if (rng.below(5)) for (int k = 0; k < 2; k++) update(k); else update(node);
+			if (rng.below(2)) { int w = (int)rng.below(6); if (w == 3) w = 0; long save = (long)rng.s; for (int k = 0; k < 2; k++) { rng.s = (uint64_t)save; work(k, w); } }
+		} else if (r < 32) {
+			/* a single connection event with a random number: a further connection, one of several closed, a repeated event */
+			link(node, 1 - node, rng.below(2) != 0, (int)rng.below(3));
+		} else if (r < 35 && nExtra) {
+			link(node, 2 + (int)rng.below(nExtra), rng.below(2) != 0, rng.below(3) ? 0 : (int)rng.below(3));
 		} else if (r < 52) {
 			update(node);
 		} else if (r < 80) {
@@ -293,9 +322,10 @@ static void GenCase(Rng& rng, std::vector<std::string>& out, bool thorough, long
 		} else if (r < 90) {
 			scramble(node, (int)rng.below(nEp));
 		} else if (r < 95) {
+			/* restart: with new objects only (B), or through the state file the old process wrote while it was running (S) */
 			long st = rng.below(6) == 0 ? 0 : now;
-			snprintf(buf, sizeof buf, "B %c %ld", "AB"[node], st); out.push_back(buf);
-			up[node] = false;
+			snprintf(buf, sizeof buf, "%c %c %ld", rng.coin() ? 'S' : 'B', "AB"[node], st); out.push_back(buf);
+			conns[node].clear();
 		} else {
 			update(0);
 			update(1);
@@ -309,7 +339,7 @@ static std::vector<std::string> Generate(uint64_t seed, bool thorough)
 	std::vector<std::string> out;
 	Rng rng(seed * 0x100000001b3ULL + 17);
 	long clock = 1000;
-	int n = thorough ? 30000 : 4000;
+	int n = thorough ? 24000 : 3400;   /* cases; the scenarios got longer with the connection-set and state-file events */
 	/* a block of pure hash ties, long names included */
 	out.push_back("C N 0 61 62 7a 79");
 	out.push_back("O h 0 1 68");
@@ -360,7 +390,7 @@ static std::vector<Obj> l_Objs;              /* derived (e, z, a) first, then th
 static size_t l_Derived = 0;
 static std::vector<Endpoint::Ptr> l_Endpoints;
 static std::vector<Zone::Ptr> l_Zones;
-static std::map<int, JsonRpcConnection::Ptr> l_Clients;
+static std::map<std::pair<int, int>, JsonRpcConnection::Ptr> l_Clients;   /* (peer, connection number) */
 static bool l_Built = false;
 
 static void Die(const std::string& msg)
@@ -473,6 +503,13 @@ static ConfigObject::Ptr Create(const Obj& o, const std::string& baseHost)
 	p->Register();
 	if (o.type != 'k' && o.type != 'f')
 		p->OnAllConfigLoaded();
+	return p;
+}
+
+/* second half of the start-up: ConfigItem::ActivateItems, after the state file has been restored */
+static void ActivateObj(const Obj& o)
+{
+	const ConfigObject::Ptr& p = o.ptr;
 	if (o.active) {
 		if (o.type == 'k' || o.type == 'f') {
 			/* features: active, but their Start() (scheduler thread, notification timer) is not run here;
@@ -484,7 +521,6 @@ static ConfigObject::Ptr Create(const Obj& o, const std::string& baseHost)
 			p->Activate();
 		}
 	}
-	return p;
 }
 
 static void TearDown()
@@ -493,7 +529,7 @@ static void TearDown()
 	ReleaseHeldCheck();
 	Sync();
 	for (auto& kv : l_Clients)
-		l_Endpoints[kv.first]->RemoveClient(kv.second);
+		l_Endpoints[kv.first.first]->RemoveClient(kv.second);
 	l_Clients.clear();
 	Sync();
 	for (size_t i = l_Objs.size(); i-- > 0;) {
@@ -514,9 +550,19 @@ static void TearDown()
 	l_Built = false;
 }
 
-/* (Re)start of this node: fresh objects (paused by default), no connections, start time as given. */
-static void Build(long start)
+/* (Re)start of this node: fresh objects (paused by default), no connections, start time as given.
+ * viaStateFile: the running process's state is dumped first (as the 5-minute timer of IcingaApplication does), the process "dies"
+ * and the new one restores the file into its new objects between loading the configuration and activating it. */
+static void Build(long start, bool viaStateFile = false)
 {
+	std::string stateFile;
+	if (viaStateFile && l_Built) {
+		ReleaseHeldCheck();
+		Sync();
+		stateFile = l_WorkDir + "/node-" + "AB"[l_Node] + ".state";
+		MkDirs(l_WorkDir);
+		ConfigObject::DumpObjects(String(stateFile), FAState);
+	}
 	TearDown();
 	Application::SetStartTime((double)start);
 	if (start > 0) SetNow((double)start);
@@ -583,6 +629,19 @@ static void Build(long start)
 		if ((o.type == 's' || o.type == 'n' || o.type == 'd' || o.type == 'c') && baseHost.empty())
 			Die("object needs a host: the first O line must be an active Host");
 		o.ptr = Create(o, baseHost);
+		Sync();
+	}
+	if (!stateFile.empty()) {
+		ConfigObject::RestoreObjects(String(stateFile), FAState);
+		if (!getenv("VERIF_KEEP_STATE")) Utility::Remove(String(stateFile));
+		Sync();
+		/* Pause()/Resume() calls are counted from the activation on: whatever bookkeeping flags the state file carries, restoring
+		 * them is not a call */
+		std::unique_lock<std::mutex> lock(l_CountersMutex);
+		l_Counters.clear();
+	}
+	for (size_t i = l_Derived; i < l_Objs.size(); i++) {
+		ActivateObj(l_Objs[i]);
 		Sync();
 	}
 	l_Built = true;
@@ -776,24 +835,27 @@ static void RunLine(const std::string& line)
 	if (node < 0) Die("bad node");
 	bool mine = node == l_Node;
 	std::string extra;
-	if (op == "B") {
+	if (op == "B" || op == "S") {
 		long start = atol(w[2].c_str());
-		if (mine) Build(start);
+		if (mine) Build(start, op == "S");
 	} else {
 		if (!l_Built && mine) Die("event before this node's B line");
 		if (!l_Built) {
 			/* this node has not been started yet */
 		} else if (op == "K") {
-			if (w.size() != 4) Die("bad K line");
+			if (w.size() != 4 && w.size() != 5) Die("bad K line");
 			int peer = atoi(w[2].c_str());
 			bool upNow = w[3] == "1";
+			int connNo = w.size() == 5 ? atoi(w[4].c_str()) : 0;
 			if (mine && l_Layout != 'N' && peer >= 0 && peer < (int)l_Endpoints.size() && peer != l_Node) {
-				auto it = l_Clients.find(peer);
+				auto key = std::make_pair(peer, connNo);
+				auto it = l_Clients.find(key);
 				if (upNow && it == l_Clients.end()) {
+					/* odd connection numbers: the connection the peer dialled (we are the server side of it) */
 					JsonRpcConnection::Ptr c = new JsonRpcConnection(String(l_EpNames[peer]), true,
-						Shared<AsioTlsStream>::Make(IoEngine::Get().GetIoContext(), *l_Ssl), RoleClient);
+						Shared<AsioTlsStream>::Make(IoEngine::Get().GetIoContext(), *l_Ssl), (connNo & 1) ? RoleServer : RoleClient);
 					l_Endpoints[peer]->AddClient(c);
-					l_Clients[peer] = c;
+					l_Clients[key] = c;
 				} else if (!upNow && it != l_Clients.end()) {
 					l_Endpoints[peer]->RemoveClient(it->second);
 					l_Clients.erase(it);
